@@ -56,11 +56,11 @@ CHECKS = {
         "cache_sound_every_schedule / cache_values_fresh (every data entry of every reachable shared cache is the fresh value of its key), result_is_solo / result_is_sequential (every finished thread returns the "
         "reference interpretation's observation = what it returns alone), answers_are_finished / never_serves_unfinished / metadata_only_is_miss (a key whose producer has only written metadata, even 'ready', is a "
         "miss), evalQO_agrees (the oracle evaluator fed a cache's own answers is the sequential evaluator). Correspondence: real threads under a deterministic scheduler (EVERY cache operation incl. every progress "
-        "write is a yield point) on MemoryCache, FileCache, StoreCache(MemoryStore): seeded schedules with up to 3 (thorough 5) pre-emptions and a structured family (three evaluations sharing a prefix, one pre-empted "
-        "twice, the others running to completion in the gaps); the model replays the global sequence of operations the implementation performed (its store_metadata calls verbatim as environment steps); per-thread "
+        "write is a yield point) on MemoryCache, FileCache, StoreCache(MemoryStore), SQLCache: seeded schedules with up to 3 (thorough 5) pre-emptions and a structured family (three evaluations sharing a prefix, one pre-empted "
+        "twice, the others running to completion in the gaps); (SQLCache on one sqlite connection shared by the threads included; every first pre-emption point taken for a text-valued prefix); the model replays the global sequence of operations the implementation performed (its store_metadata calls verbatim as environment steps); per-thread "
         "outcome, call log, own operations and final cache are compared; oracle: every thread returns its solo NoCache result, every value left in the cache equals a fresh evaluation. In addition, for FileCache and StoreCache(FileStore), "
-        "schedules at FILE-operation granularity (every open / write / close / rename / unlink of a thread below the cache directory is a yield point; two writers of a shared prefix inside each other's write protocol "
-        "followed by a reader, and a reader inside one writer's protocol), judged by the oracle; the theorem side is ConcFile.lean: file_writers_serializable / "
+        "schedules at FILE-operation granularity (every open / write / close / rename / unlink of a thread below the cache directory is a yield point; stopping points TARGETED from a probe of each thread's file-operation sequence: two writers inside each other's write protocol - all pairs 'before a rename / just created or wrote' - "
+        "followed by a reader, a reader inside one writer's protocol, a reader stopped before its open while the writer runs until right after an unlink), judged by the oracle; the theorem side is ConcFile.lean: file_writers_serializable / "
         "file_writers_progress_harmless (for EVERY interleaving of the file steps of two FileCache.store writers of one key with private temporaries - and a progress-record writer that never says ready - and every prefix, a "
         "reader gets nothing, the old entry or the complete new one; other keys are untouched), file_steps_link_* (these step lists are the ones C16's crash replay validates against the code), file_shared_tmp_truncates "
         "(refutation when two writers share a temporary = seeded change C12-1). The same for StoreCache on a FileStore (ConcFileT.lean, directory-tree model): tree_writers_serializable / tree_writers_progress_harmless / "
@@ -111,7 +111,7 @@ CHECKS = {
  "C17": dict(
   text=("(a) read-only view: every mutating operation returns the read-only error and leaves the state unchanged, reads are forwarded — for every "
         "history and any underlying store model; a generated obligation proves every mutating Store method found in the live classes is overridden "
-        "by ReadOnlyStore. (b) containment: for every root and key, keyOK implies path and metadata path lie within the root, not keyOK implies every "
+        "by ReadOnlyStore; the correspondence histories also let the owner change the underlying store directly between reads through the view (the view is live) and mount a store through the view, then mutate outside the mount. (b) containment: for every root and key, keyOK implies path and metadata path lie within the root, not keyOK implies every "
         "FileStore operation is refused; after any history no path outside the root changed. Exhaustive key enumeration (<=4 components from "
         "{a,.,..,'',__metadata__,b.txt}, with/without leading '/') for every operation directly, through a mount and through -R queries in a sandbox."),
   note=("Trusted: Lean kernel; pathlib join / OS resolution as modelled in LiquerModel/StoreFile.lean (pathOf, within); harness sandbox wrapper; "
